@@ -938,7 +938,11 @@ func (c *glCtx) stmt1(o *glOut, s ast.Stmt, sw int) bool {
 				return false
 			}
 			if isSel(sel.X, "d") && sel.Sel.Name == "Multinote" && len(call.Args) == 0 {
-				o.line("d := multinoteP d") // modelled, not translated (ranges over a map, sorts)
+				if glMultinoteTranslated {
+					o.line("d := Multinote d")
+				} else {
+					o.line("d := multinoteP d") // the hand-written primitive: the translation of Multinote failed
+				}
 				return true
 			}
 			// d.emitKeyEvent(event, ev)
@@ -1744,6 +1748,15 @@ func genBodies() {
 	emit("   Each definition is the translation of the Go method of the same name.  Do not edit. -/\n")
 	emit("import Hidi.GoLite\nset_option linter.unusedVariables false\nnamespace Hidi.Gen.Body\nopen Hidi Hidi.GoLite\n\n")
 	var okNames, failed []string
+	// Multinote first: the key handler calls it
+	if txt, err := c.translateMultinote(dev); err != "" {
+		emit("-- Multinote: not translated: %s\n\n", strings.ReplaceAll(err, "\n", " "))
+		failed = append(failed, "Multinote")
+	} else {
+		emit("%s\n", txt)
+		okNames = append(okNames, "Multinote")
+		glMultinoteTranslated = true
+	}
 	for _, it := range order {
 		if it.file == nil {
 			continue
@@ -1991,6 +2004,8 @@ func (c *glCtx) translateSegmented(fd *ast.FuncDecl, f *glFunc, sg, retT string)
 
 // dispatch translates the table `name := map[config.Action]func(*Device){ config.X: (*Device).Method, … }` of NewDevice
 // into a match over the action
+var glMultinoteTranslated bool
+
 func (c *glCtx) dispatch(dev *ast.File, name, lean string) {
 	fd := findFunc(dev, "NewDevice")
 	var lit *ast.CompositeLit
